@@ -37,7 +37,7 @@ TEST_DATA = "/repo/test-data"
 PART_COLS = ("pi", "ps", "pb", "pt")
 
 
-def source_frame(n=36, an_kind="Int64", an_rows=(), with_n=True, parts=(), tz=(), long_text=False):
+def source_frame(n=36, an_kind="Int64", an_rows=(), with_n=True, parts=(), tz=(), long_text=False, grow_cat=False):
     r = np.arange(n)
     d = {
         "rid": r.astype("int64"),
@@ -61,6 +61,10 @@ def source_frame(n=36, an_kind="Int64", an_rows=(), with_n=True, parts=(), tz=()
         d["an"] = pd.array([None if lo <= k < hi else int(k % 5) + 1 for k in r], dtype="Int64")
     elif an_kind == "str":
         d["an"] = pd.Series([None if lo <= k < hi else "v%d" % (k % 5) for k in r], dtype=object)
+    if grow_cat:        # categorical whose label set GROWS every 12 rows (written row group by row group with append: each row
+        # group's dictionary is a longer prefix of the final labels)
+        labs = ["lo", "mid", "hi", "top", "peak"]
+        d["c"] = pd.Categorical([labs[(k * 5 + k // 12) % min(k // 12 + 2, len(labs))] for k in r], categories=labs[:min((n - 1) // 12 + 2, len(labs))])
     d["k"] = np.full(n, 7, dtype="int64")
     for p in parts:
         if p == "pi":
@@ -168,6 +172,8 @@ RECIPES = {
                               scheme="hive", with_n=False),
     # MAX_PAGE_SIZE=16: one row per page for the 8-byte columns, 3 / 2 pages for the categorical column
     "pages_v1_tiny": dict(n=48, offsets=[0, 30], v=1, page=16, stats="auto", an=("str", (30, 40))),
+    # categorical labels that grow from row group to row group (append with new labels): dictionaries [lo,mid] [lo,mid,hi] [lo,mid,hi,top]
+    "cat_grows":  dict(n=36, offsets=[0, 12, 24], v=1, page=None, stats="auto", an=None, grow_cat=True),
 }
 
 QUICK = ["flat1", "flat3", "flat4v2", "flat2v2", "hive0", "hive_pi", "hive_ps_pb", "hive_pt", "drill_pi_ps",
@@ -175,6 +181,7 @@ QUICK = ["flat1", "flat3", "flat4v2", "flat2v2", "hive0", "hive_pi", "hive_ps_pb
 TZ = ["tz_data", "tz_idx_london", "tz_idx_utc_hive"]        # not part of QUICK: used by the modules that ask for them
 LONG_TEXT = ["long_text", "long_text_hive_v2"]             # asked for by c05
 PAGES = ["pages_v1", "pages_v2", "pages_v1_tiny"]                           # not part of QUICK either (c13 asks for them)
+CAT_GROWS = ["cat_grows"]                                    # not part of QUICK: c06 asks for it (seed C06-m12)
 
 FOREIGN = ["nation.plain.parquet", "nation.dict.parquet", "nation.impala.parquet", "snappy-nation.impala.parquet",
            "gzip-nation.impala.parquet", "datapage_v2.snappy.parquet", "decimals.parquet", "empty.parquet",
@@ -197,7 +204,8 @@ def recipe_code(name):
     else:
         L.append("src = source_frame(%d, an_kind=%r, an_rows=%r, with_n=%r, parts=%r%s)" % (
             rc["n"], an[0] if an else None, an[1] if an else (), rc.get("with_n", True), parts,
-            (", tz=%r" % (tuple(rc["tz"]),) if rc.get("tz") else "") + (", long_text=True" if rc.get("long") else "")))
+            (", tz=%r" % (tuple(rc["tz"]),) if rc.get("tz") else "") + (", long_text=True" if rc.get("long") else "")
+            + (", grow_cat=True" if rc.get("grow_cat") else "")))
     ix = rc.get("index")
     if ix == "range":
         L.append("towrite = src.set_axis(pd.RangeIndex(5, 5 + 2 * len(src), 2), axis=0)")
@@ -218,8 +226,15 @@ def recipe_code(name):
     if rc["page"]:
         L.append("    _w.MAX_PAGE_SIZE = %d" % rc["page"])
     kw = ", partition_on=%r" % (parts,) if parts else ""
-    L.append("    fastparquet.write(path, towrite, row_group_offsets=%r, file_scheme=%r, stats=%r%s)" % (
-        list(rc["offsets"]), scheme, rc["stats"], kw))
+    if rc.get("grow_cat"):      # one write per row group, appended: row group j only knows the labels seen so far
+        L.append("    _offs = %r + [len(towrite)]" % (list(rc["offsets"]),))
+        L.append("    for _j in range(len(_offs) - 1):")
+        L.append("        _p = towrite.iloc[_offs[_j]:_offs[_j + 1]].copy()")
+        L.append("        _p['c'] = pd.Categorical(_p['c'].astype(object), categories=list(towrite['c'].cat.categories)[:_j + 2])")
+        L.append("        fastparquet.write(path, _p, row_group_offsets=[0], file_scheme=%r, stats=%r%s, append=_j > 0)" % (scheme, rc["stats"], kw))
+    else:
+        L.append("    fastparquet.write(path, towrite, row_group_offsets=%r, file_scheme=%r, stats=%r%s)" % (
+            list(rc["offsets"]), scheme, rc["stats"], kw))
     L.append("finally:")
     L.append("    _w.DATAPAGE_VERSION, _w.MAX_PAGE_SIZE = _old")
     return "\n".join(L)
@@ -241,6 +256,8 @@ def build_one(fp, root, name, write=True):
                              "tl": ("tl", "Mtz"), "tu": ("tu", "Mtz"), "tk": ("tk", "Mtz")}[ix]
     feats = {"ds": name, "scheme": rc.get("scheme", "simple"), "nparts": len(parts), "v": rc["v"],
              "multipage": bool(rc["page"]), "index": index_kind}
+    if rc.get("grow_cat"):
+        feats["cat_dictionary_grows"] = True
     return DS(name, path, src, feats, index_col=index_col, index_kind=index_kind)
 
 
